@@ -7,6 +7,7 @@
 EXTENDS TLC, Json, IOUtils, Integers, Sequences
 ED == INSTANCE EdDSA
 EC == INSTANCE ECDSA
+JQ == INSTANCE JqSchnorr
 
 Rec == ndJsonDeserialize(IOEnv.TRACE)
 N == Len(Rec)
@@ -52,7 +53,31 @@ DoEcVerify ==
        IN Step(/\ Has("pkok") /\ e.pkok = pkok
                /\ (pkok => Has("res") /\ e.res = EC!Verify(Curve, e.pk, e.sig, e.hv)))
 
-Next == \/ DoInit \/ DoX25519 \/ DoX25519Base \/ DoX448 \/ DoX448Base
+(* ---- C09 ---- *)
+DoJqKeygen == Is("jq_keygen")
+              /\ LET ok == JQ!JSkOk(e.c, e.sk)
+                 IN Step(Has("skok") /\ e.skok = ok /\ (ok => Has("pk") /\ e.pk = JQ!JPub(e.c, e.sk)))
+DoJqSign == Is("jq_sign") /\ Step(Has("sig") /\ e.sig = JQ!JSign(e.c, e.sk, e.seed, e.hn, e.data))
+\* randomized signatures are only required to verify
+DoJqSignRand == Is("jq_sign_rand")
+                /\ Step(Has("sig") /\ JQ!JVerify(e.c, JQ!JPub(e.c, e.sk), e.sig, e.hn, e.data))
+DoJqVerify ==
+    /\ Is("jq_verify")
+    /\ LET pkok == Len(e.pk) = 32 /\ JQ!JPkOk(e.c, e.pk)
+       IN Step(/\ Has("pkok") /\ e.pkok = pkok
+               /\ (pkok => Has("res") /\ e.res = JQ!JVerify(e.c, e.pk, e.sig, e.hn, e.data)))
+\* ECDH: status, and on success the documented key
+DoJqEcdh ==
+    /\ Is("jq_ecdh")
+    /\ LET ok == JQ!JEcdhOk(e.c, e.peer)
+       IN Step(/\ Has("st") /\ e.st = (IF ok THEN "ones" ELSE "zero")
+               /\ (ok => e.key = JQ!JEcdhKey(e.c, e.sk, e.peer)))
+\* on failure the key must depend on the local secret: two different secrets, same bad peer
+DoJqEcdhFail == Is("jq_ecdh_fail2")
+                /\ Step(~JQ!JEcdhOk(e.c, e.peer) /\ e.sk1 # e.sk2 /\ e.st1 = "zero" /\ e.st2 = "zero" /\ e.key1 # e.key2)
+
+Next == \/ DoJqKeygen \/ DoJqSign \/ DoJqSignRand \/ DoJqVerify \/ DoJqEcdh \/ DoJqEcdhFail
+        \/ DoInit \/ DoX25519 \/ DoX25519Base \/ DoX448 \/ DoX448Base
         \/ DoEdKeygen \/ DoEdSign \/ DoEdVerify
         \/ DoEcKeygen \/ DoEcSign \/ DoEcVerify
 Spec == Init /\ [][Next]_vars
